@@ -2,10 +2,10 @@
 from ..core.seed import H, rnd
 
 
-def gen_cond(r, idx=0, kinds=("pinn", "pinn", "mean", "single", "adaptw", "periodic", "data")):
+def gen_cond(r, idx=0, kinds=("pinn", "pinn", "mean", "single", "adaptw", "periodic", "data", "integro")):
     kind = r.choice(kinds)
     out_dim = r.choice((1, 1, 2))
-    with_t = r.random() < 0.6 or kind == "periodic"
+    with_t = r.random() < 0.6 or kind in ("periodic", "integro")
     order = r.choice((["x", "t"], ["t", "x"])) if with_t else ["x"]
     cs = {"kind": kind, "out_dim": out_dim, "order": order, "w0": r.choice((0.7, 1.3, 2.1)),
           "weight": r.choice((1.0, 0.5, 3.0)), "name": "%s%d" % (kind, idx)}
@@ -27,6 +27,9 @@ def gen_cond(r, idx=0, kinds=("pinn", "pinn", "mean", "single", "adaptw", "perio
         smp["static"] = "inf"
     if kind == "periodic":
         smp["static"] = r.choice((None, None, "inf"))
+    if kind == "integro":
+        smp["t"] = {"kind": r.choice(("random", "grid")), "n": r.choice((1, 2, 3))}
+        cs["int_sampler"] = {"kind": r.choice(("random", "grid")), "n": r.choice((1, 3, 4))}
     cs["sampler"] = smp
     cs["use_param"] = r.random() < 0.35
     n_df = r.choice((0, 0, 1, 1, 2))
@@ -50,8 +53,12 @@ def gen_cond(r, idx=0, kinds=("pinn", "pinn", "mean", "single", "adaptw", "perio
         args = ["u"] + [v for v in order if r.random() < 0.7] + list(dfs)
         if any(v not in args for v in ("x",)) and r.random() < 0.5:
             args.append("x")
+        if kind == "integro":
+            args += ["u_integral"] + (["t_integral"] if r.random() < 0.6 else [])
         args = list(dict.fromkeys(args))
-        if "x" in args and r.random() < 0.6:
+        if kind == "integro":
+            pass
+        elif "x" in args and r.random() < 0.6:
             cs["grad_of"] = ["u", "x"]
         elif "t" in args and r.random() < 0.5:
             cs["grad_of"] = ["u", "t"]
